@@ -78,6 +78,8 @@ struct World {
     /// generator's view of the environment: open connections in establishment order
     live: Vec<(u64, u64)>,
     next_conn: u64,
+    /// ForceClose fillers put into a command channel by this op (they are not commands of the service)
+    fillers: BTreeMap<u64, usize>,
     flag: Arc<Flag>,
     waker: Waker,
 }
@@ -98,6 +100,7 @@ impl World {
             pending: BTreeMap::new(),
             live: Vec::new(),
             next_conn: 1,
+            fillers: BTreeMap::new(),
             waker: Waker::from(flag.clone()),
             flag,
         }
@@ -202,6 +205,7 @@ impl World {
         let mut outs: Vec<[u64; 3]> = Vec::new();
         let before = self.flags();
         let mut conn_of_sub = None;
+        self.fillers.clear();
         match op[1] {
             0 => {}
             1 => {
@@ -284,8 +288,10 @@ impl World {
                     .into_iter()
                     .find(|(p, _, _)| *p == peer)
                     .map(|(_, prim, _)| prim.0 as u64);
-                if let Some(env) = prim.and_then(|c| self.conns.get(&c)) {
-                    let _ = env.conn.fill();
+                if let Some((c, env)) = prim.and_then(|c| self.conns.get(&c).map(|e| (c, e))) {
+                    if let Some(n) = env.conn.fill() {
+                        self.fillers.insert(c, n);
+                    }
                 }
                 let svc = &mut self.svc;
                 match catch_unwind(AssertUnwindSafe(|| svc.open_substream(peer))) {
@@ -295,6 +301,39 @@ impl World {
                     Ok(Err(3)) => outs.push([6, 3, 0]),
                     Ok(Err(_)) => outs.push([6, 4, 0]),
                     Err(_) => outs.push([8, 0, 0]),
+                }
+            }
+            14 => {
+                // force_close(p); op[3] / op[4]: the secondary's / primary's command channel is full
+                let peer = self.peer(op[2]);
+                let ctx = self.svc.contexts().into_iter().find(|(p, _, _)| *p == peer);
+                if let Some((_, prim, sec)) = ctx {
+                    let mut targets = Vec::new();
+                    if op[4] != 0 {
+                        targets.push(prim.0 as u64);
+                    }
+                    if let (true, Some(s)) = (op[3] != 0, sec) {
+                        targets.push(s.0 as u64);
+                    }
+                    for c in targets {
+                        if let Some(n) = self.conns.get(&c).and_then(|e| e.conn.fill()) {
+                            self.fillers.insert(c, n);
+                        }
+                    }
+                }
+                let svc = &mut self.svc;
+                match catch_unwind(AssertUnwindSafe(|| svc.force_close(peer))) {
+                    Ok(r) => outs.push([12, r as u64, 0]),
+                    Err(_) => outs.push([8, 0, 0]),
+                }
+            }
+            15 => {
+                // dial / dial_address / add_known_address: forwarded to the manager handle; nothing
+                // of the service may change (the model treats the call as a plain poll)
+                let peer = self.peer(op[2]);
+                let svc = &mut self.svc;
+                if catch_unwind(AssertUnwindSafe(|| svc.api_call(op[3] as u8, peer, 30000 + (op[2] as u16 % 1000)))).is_err() {
+                    outs.push([8, 0, 0]);
                 }
             }
             12 => match self.conns.get_mut(&op[2]) {
@@ -335,6 +374,11 @@ impl World {
         let ids: Vec<u64> = self.conns.keys().copied().collect();
         for c in ids {
             let cmds = self.conns.get_mut(&c).unwrap().conn.drain();
+            // ForceClose commands of the service = those beyond this op's fillers
+            let forces = cmds.iter().filter(|x| x.is_none()).count();
+            for _ in self.fillers.get(&c).copied().unwrap_or(0)..forces {
+                outs.push([11, c, 0]);
+            }
             for cmd in cmds.into_iter().flatten() {
                 outs.push([7, c, wid(cmd.substream_id as u64)]);
                 // only open_substream(p) produces commands, and channels are drained after every op
@@ -361,6 +405,8 @@ fn op_len(tag: u64) -> Option<usize> {
         3 => 3,
         4 => 2,
         5..=13 => 1,
+        14 => 3,
+        15 => 2,
         _ => return None,
     })
 }
@@ -399,6 +445,9 @@ fn parse_case(c: &[u64]) -> Option<(bool, u64, u64, Vec<Vec<u64>>)> {
         if tag == 1 && !est.insert(op[3]) {
             return None;
         }
+        if tag == 15 && op[3] >= 3 {
+            return None;
+        }
         ops.push(op);
         i += 2 + len;
     }
@@ -410,6 +459,8 @@ fn parse_case(c: &[u64]) -> Option<(bool, u64, u64, Vec<Vec<u64>>)> {
 }
 
 struct Gen {
+    /// scripted ops played first (directed scenarios: both connections of a peer, promotion)
+    script: Vec<Vec<u64>>,
     rng: Rng,
     timed: bool,
     third: bool,
@@ -421,6 +472,15 @@ struct Gen {
 
 impl Gen {
     fn next(&mut self, w: &mut World) -> Vec<u64> {
+        if !self.script.is_empty() {
+            let op = self.script.remove(0);
+            self.elapsed += op[0];
+            match op[1] {
+                1 => w.next_conn = w.next_conn.max(op[3] + 1),
+                _ => {}
+            }
+            return op;
+        }
         let r = &mut self.rng;
         let dt = if self.timed && self.elapsed < 3000 { r.pick(&[0u64, 0, 200, 200, 200, 400, 600]) } else { 0 };
         self.elapsed += dt;
@@ -491,6 +551,11 @@ impl Gen {
                         None
                     },
                 94 => Some(vec![dt, 11, r.range(1, 5)]),
+                99 => if r.chance(60) {
+                    Some(vec![dt, 14, p, r.chance(20) as u64, r.chance(20) as u64])
+                } else {
+                    Some(vec![dt, 15, p, r.below(3)])
+                },
                 95 | 98 =>
                     if !w.conns.is_empty() {
                         // prefer a connection on which a substream is held
@@ -557,9 +622,13 @@ async fn exec(ka: bool, t_ms: u64, n0: u64, mut src: Src<'_>) -> (Vec<u64>, Vec<
             }
         }
         case_ops.extend(&op);
-        // non-downgrade outputs in emission order, then downgrades (already sorted)
+        // non-downgrade outputs in emission order, then ForceClose commands (by channel), then
+        // downgrades (already sorted)
         trace.push(outs.len() as u64);
-        for o in outs.iter().filter(|o| o[0] != 10) {
+        for o in outs.iter().filter(|o| o[0] != 10 && o[0] != 11) {
+            trace.extend(o);
+        }
+        for o in outs.iter().filter(|o| o[0] == 11) {
             trace.extend(o);
         }
         for o in outs.iter().filter(|o| o[0] == 10) {
@@ -593,6 +662,14 @@ fn run_stored(rt: &tokio::runtime::Runtime, c: &[u64]) -> Vec<u64> {
         // end to end: two real nodes, real time
         return crate::c09_e2e::run(c);
     }
+    if c.first() == Some(&5) {
+        // several real services over shared real ProtocolSets
+        return crate::c08_multi::run_stored(rt, c);
+    }
+    if c.first() == Some(&6) {
+        // the name tables of ProtocolSet::new
+        return crate::c08_names::run(rt, c);
+    }
     if c.first() == Some(&3) {
         // composed: real ProtocolSets -> real bounded channel -> real TransportService
         return match crate::c08_compose::parse(c) {
@@ -621,7 +698,24 @@ fn gen_one(rt: &tokio::runtime::Runtime, mut rng: Rng, timed: bool, thorough: bo
     let garbage = !timed && rng.chance(8);
     let nops = if timed { rng.range(6, 14) } else if thorough { rng.range(10, 120) } else { rng.range(8, 60) } as usize;
     let npeers = rng.range(1, 3);
-    let g = Gen { rng: rng.fork(), timed, third, garbage, npeers, nops, elapsed: 0 };
+    // a third of the timed cases start with two overlapping connections of peer 0, some activity on
+    // one of them, and the primary closing first (promotion of the secondary)
+    let mut script: Vec<Vec<u64>> = Vec::new();
+    if timed && rng.chance(35) {
+        script.push(vec![0, 1, 0, 1]);
+        script.push(vec![rng.pick(&[0u64, 200]), 1, 0, 2]);
+        match rng.below(3) {
+            0 => script.push(vec![rng.pick(&[0u64, 200]), 3, 0, 2, 1]),
+            1 => script.push(vec![rng.pick(&[0u64, 200]), 7, 0]),
+            _ => {}
+        }
+        script.push(vec![rng.pick(&[0u64, 200, 200]), 2, 0, 1]);
+        if rng.chance(50) {
+            script.push(vec![rng.pick(&[0u64, 200]), 7, 0]);
+        }
+    }
+    let nops = nops.max(script.len() + 3);
+    let g = Gen { script, rng: rng.fork(), timed, third, garbage, npeers, nops, elapsed: 0 };
     let (case, trace, ok) = rt.block_on(tokio::task::unconstrained(exec(ka, t_ms, n0, Src::Gen(g))));
     if ok {
         return (case, trace);
@@ -687,8 +781,31 @@ pub fn main(args: &Args, c09: bool) {
             out.emit(&c, &t);
         }
     }
-    // timed cases: real time, many threads (they mostly sleep)
-    let seeds: Vec<Rng> = (0..n_timed).map(|_| rng.fork()).collect();
+    // the name tables of ProtocolSet::new: protocols with fallback names and mixed keep-alive flags
+    {
+        let mut rr = Rng::new(seed ^ 0x6a6e);
+        for _ in 0..(ncases / 4).max(10) {
+            let c = crate::c08_names::gen(&mut rr);
+            let t = catch_unwind(AssertUnwindSafe(|| crate::c08_names::run(&rt, &c))).unwrap_or(vec![PANIC_MARK]);
+            out.emit(&c, &t);
+        }
+    }
+    // several services over shared ProtocolSets, logical time only (reference counting, queues, ids)
+    {
+        let mut rr = Rng::new(seed ^ 0x5a17);
+        for _ in 0..(if c09 { ncases / 2 } else { ncases / 4 }) {
+            let r = rr.fork();
+            let (c, t) = catch_unwind(AssertUnwindSafe(|| crate::c08_multi::gen_one(&rt, r, false, thorough)))
+                .unwrap_or((vec![0], vec![PANIC_MARK]));
+            out.emit(&c, &t);
+        }
+    }
+    // timed cases: real time, many threads (they mostly sleep); the second half of the C09 ones
+    // are multi-service cases (different timeouts on one connection)
+    let n_multi_timed = if c09 { ncases / 2 } else { ncases / 50 };
+    let mut seeds: Vec<(Rng, bool)> = (0..n_timed).map(|_| (rng.fork(), false)).collect();
+    let mut rng_m = Rng::new(seed ^ 0x5a19);
+    seeds.extend((0..n_multi_timed).map(|_| (rng_m.fork(), true)));
     let results: Arc<Mutex<Vec<Option<(Vec<u64>, Vec<u64>)>>>> = Arc::new(Mutex::new(vec![None; seeds.len()]));
     let next = Arc::new(std::sync::atomic::AtomicUsize::new(0));
     let seeds = Arc::new(seeds);
@@ -703,9 +820,15 @@ pub fn main(args: &Args, c09: bool) {
                 if i >= seeds.len() {
                     break;
                 }
-                let r = seeds[i].clone();
-                let res = catch_unwind(AssertUnwindSafe(|| gen_one(&rt, r, true, thorough)))
-                    .unwrap_or((vec![0], vec![PANIC_MARK]));
+                let (r, multi) = seeds[i].clone();
+                let res = catch_unwind(AssertUnwindSafe(|| {
+                    if multi {
+                        crate::c08_multi::gen_one(&rt, r, true, thorough)
+                    } else {
+                        gen_one(&rt, r, true, thorough)
+                    }
+                }))
+                .unwrap_or((vec![0], vec![PANIC_MARK]));
                 results.lock().unwrap()[i] = Some(res);
             }
         }));
@@ -719,7 +842,9 @@ pub fn main(args: &Args, c09: bool) {
     // end to end: two real nodes over loopback TCP / WebSocket, real time
     if c09 {
         let mut rr = Rng::new(seed ^ 0xe2e9);
-        let cases: Vec<Vec<u64>> = (0..(ncases / 8).max(2)).map(|_| crate::c09_e2e::gen(&mut rr, &[0, 0, 1])).collect();
+        let mut cases: Vec<Vec<u64>> = (0..(ncases / 8).max(2)).map(|_| crate::c09_e2e::gen(&mut rr, &[0, 0, 1])).collect();
+        // request-response over main / fallback names, requests held by the responder across timeouts
+        cases.extend((0..(ncases / 10).max(2)).map(|_| crate::c09_e2e::gen_rr(&mut rr, &[0, 0, 1])));
         let results: Arc<Mutex<Vec<Option<Vec<u64>>>>> = Arc::new(Mutex::new(vec![None; cases.len()]));
         let next = Arc::new(std::sync::atomic::AtomicUsize::new(0));
         let cases = Arc::new(cases);
